@@ -51,10 +51,10 @@ func (u unitT) same(o unitT) bool {
 }
 
 type unitsOracle struct {
-	Fields         map[string]unitT             `json:"fields"`
-	Results        map[string]unitT             `json:"results"`
-	Sentinels      map[string]int64             `json:"sentinels"`
-	SentinelWidths map[string][]string          `json:"sentinel_widths"`
+	Fields         map[string]unitT              `json:"fields"`
+	Results        map[string]unitT              `json:"results"`
+	Sentinels      map[string]int64              `json:"sentinels"`
+	SentinelWidths map[string][]string           `json:"sentinel_widths"`
 	Freq           map[string]map[string]float64 `json:"frequencies_hz"`
 }
 
@@ -619,9 +619,11 @@ func checkC08(c *Ctx) {
 // checkInvalidHandling: zero results only under rough-invalid tests; fine-invalid replaces the delta by 0.
 func checkInvalidHandling(c *Ctx, rule string, lay *layoutOracle) {
 	P := c.P
-	isRoughTest := func(cond ssa.Value) bool {
+	// isRoughTest: the fact (cond has truth value val) says that the satellite is missing or its rough
+	// value carries the invalid marker: `x == marker` taken or `x != marker` not taken
+	isRoughTest := func(cond ssa.Value, val bool) bool {
 		bo, ok := cond.(*ssa.BinOp)
-		if !ok || bo.Op != token.EQL {
+		if !ok || !((bo.Op == token.EQL && val) || (bo.Op == token.NEQ && !val)) {
 			return false
 		}
 		if isNilConst(bo.Y) {
@@ -661,7 +663,7 @@ func checkInvalidHandling(c *Ctx, rule string, lay *layoutOracle) {
 				if f, isC := constFloat(r.Results[0]); !isC || f != 0 {
 					continue
 				}
-				rough := onEveryPath(r.Block(), func(ft EdgeFact) bool { return isRoughTest(ft.Cond) && ft.Val })
+				rough := onEveryPath(r.Block(), func(ft EdgeFact) bool { return isRoughTest(ft.Cond, ft.Val) })
 				if !rough {
 					okAll = false
 					c.Fail(rule, "zero-only-when-rough-invalid("+key+")", r.Pos(), "refuted", key+" returns zero on a path that is not guarded by an invalid rough value: an invalid fine value must fall back to the rough value alone")
